@@ -62,6 +62,7 @@ def _impl(tier, seed, search):
                 if ok and r is not None: L.close(f'SO{d}*p', np.asarray(r, float).flatten(), R @ p, TOL, float(np.max(np.abs(p))), inp, sig=f'SO{d}*p[{fname}]')
             # d x N arrays, N = 1..7
             N = int(g.integers(1, 8)); Pn = pts(d, N)
+            if i % 5 == 0: Pn = g.integers(-9, 10, size=(d, N))          # integer-dtype point arrays are points too
             inp = dict(dim=d, N=N, P=Pn, T=T)
             scN = max(float(np.max(np.abs(Pn))), float(np.max(np.abs(tt))))
             ok, r = L.noraise(f'SE{d}*P[N={N}]', lambda: SEc(T, check=False) * Pn, inp, f'SE{d} * {d}x{N} array')
@@ -117,6 +118,7 @@ def _impl(tier, seed, search):
         ok, r = L.noraise('homtrans', lambda: b.homtrans(Tm, p), dict(T=Tm, p=p), 'homtrans(T, p)')
         if ok: L.close('homtrans', np.asarray(r, float).flatten(), R @ p + t, TOL, scale, dict(T=Tm, p=p))
         N = int(g.integers(1, 8)); Pn = pts(3, N)
+        if i % 5 == 0: Pn = g.integers(-9, 10, size=(3, N))          # integer-dtype point arrays
         ok, r = L.noraise('homtrans-dxN', lambda: b.homtrans(Tm, Pn), dict(T=Tm, P=Pn), 'homtrans(T, 3xN)')
         if ok: L.close('homtrans-dxN', r, R @ Pn + t.reshape(3, 1), TOL, max(float(np.max(np.abs(Pn))), float(np.max(np.abs(t)))), dict(T=Tm, P=Pn))
         ok, r = L.noraise('UQ*3xN', lambda: UnitQuaternion(qv) * Pn, dict(q=qv, P=Pn), 'UnitQuaternion * 3xN')
